@@ -56,7 +56,12 @@ theorem dir_without_r_refused (cwd : List (Bytes × Entry)) (arg : Bytes) (ch : 
   simp [runArgs, inspectArg, h]
 
 theorem missing_path_refused (r : Bool) (cwd : List (Bytes × Entry)) (arg : Bytes)
-    (h : cwd.lookup arg = none) (rest : List Bytes) : (runArgs r cwd (arg :: rest)).2 = 1 := by
+    (h : cwd.lookup arg = none) (hdot : arg ≠ [46]) (rest : List Bytes) : (runArgs r cwd (arg :: rest)).2 = 1 := by
+  simp [runArgs, inspectArg, h, hdot]
+
+/-- "." names the working directory: refused without -r like any directory -/
+theorem dot_without_r_refused (cwd : List (Bytes × Entry)) (h : cwd.lookup [46] = none) (rest : List Bytes) :
+    (runArgs false cwd ([46] :: rest)).2 = 1 := by
   simp [runArgs, inspectArg, h]
 
 /-- DEPTH LIMIT (recorded finding D23): the hypothesis of `scan_eq_flatten` is needed — a file below more
